@@ -798,6 +798,9 @@ MANIFEST = dict(
     technique='Coq proof about the IEEE decimal128 specification model (one correct rounding, value lemmas, comparison, integral functions) with model/code correspondence against the C kernel',
     text='The C arithmetic kernel (decNumber) is not transliterated: the model is the IEEE 754-2008 decimal128 specification (exact integer arithmetic, one rounding to '
          '34 digits half-even, emax 6144, gradual underflow, clamp, overflow = null). Theorems (coq/Props/C02.v, closed under the global context) are about that '
-         'model. The tie to the code is the correspondence check: FeelNumber API and FEEL text on boundary-class operand tuples vs the model evaluated in Coq '
+         'model; they include: every rounding result is a nearest decimal128, ties to even, and in format (C02_round34_nearest_even, C02_round34_in_format); division and square root round the exact '
+         'quotient / root once (C02_div_sticky + C02_div_drops_at_least_3; C02_sqrt_correctly_rounded: for every positive finite decimal the result of dsqrt is the nearest-even 34-digit '
+         'rounding of the exact square root, stated on integers with the squares of the half-way points, via C02_sqrt_sticky + C02_sqrt_root_digits >= 36 root digits; C02_sqrt_defined: never null on a datum). '
+         'The tie to the code is the correspondence check: FeelNumber API and FEEL text on boundary-class operand tuples vs the model evaluated in Coq '
          '(cross-checked with libmpdec); no-Infinity/NaN is evaluated directly on the implementation output. exp, ln and inexact powers: validated within 2 ulp only.',
     note='Trusted: Coq kernel + vm_compute, the reading of IEEE 754-2008 in Base/DecRound.v, decNumber (sampled, not verified), libmpdec as second oracle, harness.')
